@@ -67,6 +67,8 @@ fn r#gen(rng: &mut Rng, thorough: bool) -> Scn {
             // sometimes far away, so that the block counter itself is a high-entropy value
             let lim = super::c04::flavor_of(mode).map(super::c04::limit_blocks).unwrap_or(u128::MAX);
             Op::new("setpos").p(if rng.chance(1, 2) { rng.below(1 << 20) as u128 } else { (rng.u128() >> rng.below(64)) % (lim - (1 << 16)) })
+        } else if rng.chance(1, 7) {
+            Op::new("restart")
         } else {
             gen_data_op(rng, fam, mode, bs, w)
         };
@@ -125,8 +127,27 @@ fn replay(scn: &Scn, fam: u8, key: &[u8], iv: &[u8], tag: u8, p: usize, ctx: Opt
     };
     let mut bytes = 0usize;
     let mut seeked = false;
+    let mut imported = false;
     let mut ctx = ctx;
     for (i, op) in scn.ops.iter().take(p).enumerate() {
+        if op.k == "restart" {
+            // export, drop, import: byte-stream aliases only at a block boundary
+            let at_boundary = match &inst {
+                Inst::S(_) => bytes % scn.bs == 0,
+                _ => true,
+            };
+            if at_boundary {
+                if let Some(e) = inst.export() {
+                    drop(inst);
+                    inst = match Inst::import(fam, &scn.mode, scn.bs, scn.cipher, key, &e, tag) {
+                        Ok(x) => x,
+                        Err(_) => return Err(Verdict::Violation { clause: "import".into(), detail: "exported state rejected".into() }),
+                    };
+                    imported = true;
+                }
+            }
+            continue;
+        }
         let n = op.n as usize * inst.unit();
         if n > 1 << 14 {
             return Err(Verdict::Invalid("len".into()));
@@ -148,6 +169,7 @@ fn replay(scn: &Scn, fam: u8, key: &[u8], iv: &[u8], tag: u8, p: usize, ctx: Opt
             bytes = op.p as usize;
         }
     }
+    let _ = imported;
     Ok((inst, bytes, seeked))
 }
 
